@@ -1,6 +1,15 @@
 from .nodes import types, expressions, declarations
 
 
+def c_divmod(x, y):
+    """Integer division and remainder as in C: the quotient is truncated
+    towards zero and the remainder has the sign of the dividend."""
+    q, r = x // y, x % y
+    if r != 0 and (x < 0) != (y < 0):
+        q, r = q + 1, r - y
+    return q, r
+
+
 class ConstantExpressionEvaluator:
     """Class which is capable of evaluating expressions."""
 
@@ -110,9 +119,9 @@ class ConstantExpressionEvaluator:
             "*": lambda x, y: x * y,
         }
 
-        # Ensure division is integer division:
+        # Ensure division is integer division, truncating towards zero:
         if expr.typ.is_integer:
-            op_map["/"] = lambda x, y: x // y
+            op_map["/"] = lambda x, y: c_divmod(x, y)[0]
             op_map[">>"] = lambda x, y: x >> y
             op_map["<<"] = lambda x, y: x << y
             op_map["|"] = lambda x, y: x | y
